@@ -173,11 +173,19 @@ func (c *Cache) Watch(
 		// Create/Get Informer
 		informer, _, err := c.informerMap.Get(ctx, gvk, uns)
 		if err != nil {
+			// Forget the reference again, so the next Watch call retries to start the informer.
+			delete(c.informerReferences, gvk)
 			return fmt.Errorf("getting informer from InformerMap: %w", err)
 		}
 
 		// ensure to add all event handlers to the new informer
 		if err := c.cacheSource.handleNewInformer(informer); err != nil {
+			// Stop the informer and forget the reference again, so the next Watch call
+			// starts a new informer with all EventHandlers registered.
+			delete(c.informerReferences, gvk)
+			if derr := c.informerMap.Delete(ctx, gvk); derr != nil {
+				return fmt.Errorf("registering EventHandlers for %v: %w (releasing informer: %v)", gvk, err, derr) //nolint:errorlint
+			}
 			return fmt.Errorf("registering EventHandlers for %v: %w", gvk, err)
 		}
 	}
